@@ -1,10 +1,10 @@
 SPECIFICATION Spec
 CONSTANTS
-  Roots <- G2Q_Roots
-  Ops <- G_Ops
-  Scheds = {"sync"}
-  MaxDepth = 2
-  MaxRuns = 0
+  Roots <- N_ReadsRoots
+  Ops <- N_NoOps
+  Scheds = {"any"}
+  MaxDepth = 1
+  MaxRuns = 1
   MaxTasks = 12
   FftNeedsOneChunk = TRUE
   ChirpKeyByChannel = TRUE
@@ -14,6 +14,7 @@ CONSTANTS
   OverwriteTags <- None_
   StickyKwargs = FALSE
   LazySetitemLost = FALSE
-  SharedHandle = FALSE
-INVARIANT EmitLeaf
+  SharedHandle = TRUE
+VIEW View
+INVARIANT OrderIndependent
 CHECK_DEADLOCK FALSE
